@@ -14,7 +14,8 @@ func main() {
 			"and its emit trace/results/error compared in Coq with the reference evaluator; non-trivial = at least 5 emitted rows or an error outcome; distinct by Gallina term; " +
 			"fragment mode: straight-line chunks inside the transcribed fragment of compile.go (coq/CC), each counted non-trivial, whose dumped prototype must equal the transcription's (frag_tie)",
 		Modes:     []luaprop.Mode{{Name: "core", Features: luagen.CoreFeatures(), Weight: 5}, {Name: "core-bigk", Features: bigk(luagen.CoreFeatures()), Weight: 1},
-			{Name: "fragment", Gen: luaprop.FragmentProgram, Weight: 3}},
+			{Name: "fragment", Gen: luaprop.FragmentProgram, Weight: 3},
+			{Name: "w5-matrix", Gen: luagen.W5C01Program, Weight: 2}},
 		NQuick:    400,
 		NThorough: 2500,
 		Corpus:    corpus,
@@ -45,4 +46,8 @@ var corpus = []string{
 	`local x=1; local z={}; local function g() x=7 return 2 end; z.k, z.j = x, g(); emit(z.k, z.j, x)`,
 	`local t = {}; local u = t; t.x, t = 1, nil; emit(u.x, t); local a, b = 1, 2; local w = {}; w.x, a, w.y, b = a, b, b, a; emit(w.x, a, w.y, b)`,
 	`local t = {}; emit(pcall(function() ("s").x = 1 end)); emit(t.x)`,
+	// wave 5: a value kept in a temporary (and/or in value context, stored into a table field) survives the
+	// evaluation of the values that follow it in the same list; numeral strings as for operands in every position
+	`local t = {} local a, b, n = 3, 4, nil; t.x, b = a and b, a + 1; emit(t.x, b); t.y, t.z, a = n or "d", a or b, b * 2; emit(t.y, t.z, a); local function f() return 7, 8 end; t[1], t[2], t[3] = n or a, f(); emit(t[1], t[2], t[3])`,
+	`local s = 0; local st = "3"; for i = 2, 11, st do s = s + i end; for i = 9, "1", "-2" do s = s + i end; for i = "1", " 3 ", "0x1" do s = s + i end; emit(s, st, type(st)); emit(pcall(function() for i = 1, 2, "x" do end end))`,
 }
